@@ -182,5 +182,9 @@ def run_job(job):
                 obs.append((r.ok, r.out if r.ok else b""))
             res["obs"].append(obs)
     except Exception as e:  # noqa
-        res["error"] = f"{type(e).__name__}: {e} {traceback.format_exc()[-600:]}"
+        msg = f"{type(e).__name__}: {e}"
+        if "too deep" in msg.lower() or "stacktoodeep" in msg.lower():
+            res["skipped"] = msg[:120]      # legacy back-end capacity limit for a large generated type
+        else:
+            res["error"] = f"{msg} {traceback.format_exc()[-600:]}"
     return res
